@@ -591,10 +591,13 @@ FairSpec == Spec /\ WF_vars(Next)
 (***************************************************************************)
 (* C02: never loop idle, nothing outstanding, run pending *)
 NoStuck == ~(Running /\ Len(st.ready) = 0 /\ st.gates = {} /\ Len(st.timers) = 0)
-(* C04: per (node, provenance tag) at most `attempts` body invocations *)
+(* C04: per (node, provenance tag) at most `attempts` body invocations.  An iteration requested with
+   next_iteration(None) runs the start node WITHOUT additional_data, i.e. with the provenance of an earlier execution:
+   every such request of the run's plan allows one more execution under the same tag *)
+NoneIters(S) == Cardinality({x \in (DOMAIN RunCfg(S).recnone) \X (1..8) : x[2] <= Len(RunCfg(S).recnone[x[1]])})
 AtMostOnce == \A i \in 1..Len(st.starts) :
                  Cardinality({j \in 1..Len(st.starts) : st.starts[j][1] = st.starts[i][1] /\ st.starts[j][3] = st.starts[i][3]})
-                    <= A(st.starts[i][1]).attempts
+                    <= A(st.starts[i][1]).attempts * (1 + NoneIters(st))
 (* C03: a body never starts with an absent / hidden / failed / Recurrent input *)
 CleanStarts == st.badstart = {}
 (* C06: in a pipeline of plain Input dependencies, whenever the loop is idle and every node of smaller depth has its
